@@ -147,6 +147,20 @@ Theorem fastpath_tables_hold :
   forallb (fun t => match t with (f, c, b) => b end) gen_render_fastpath = true.
 Proof. exact fastpath_tables_agree. Qed.
 
+(* T1 obligations on how the compiler reaches the calculus: in the calculus a
+   render expression denotes the file its path resolves to and a file is
+   lowered in its own contexts.  The compiler memoises the lowering of a
+   rendered file (checkRender: a dummy import and a dummy macro per file): the
+   memo is keyed by the rendered file, not by the path as it is written (two
+   files of different directories may spell two files alike).  The functions
+   of an imported or rendered file are emitted with the URL flags of the
+   emitter cleared: they belong to the attribute being emitted, not to the
+   file (the file is emitted once, at its first render). *)
+Theorem render_memo_keyed_by_file_holds : gen_render_memo_by_tree = true.
+Proof. reflexivity. Qed.
+Theorem import_clears_url_flags_holds : gen_import_clears_url_flags = true.
+Proof. reflexivity. Qed.
+
 (* refuted when the rendered file has a deferred call (recorded finding) *)
 Theorem render_equals_show_of_value_refuted_with_deferred_call :
   let fs node := [(0, mkFile gen_FormatHTML None [] [] false [node]);
